@@ -258,8 +258,13 @@ Proof. intros s H. unfold is_snake in H. apply andb_true_iff in H. tauto. Qed.
 Lemma class_tag_has : forall x, class_tag (has_name x) = 1%N.
 Proof. intros x. unfold class_tag, has_name, starts_with. rewrite prefix_append. reflexivity. Qed.
 
+Ltac tag_solve :=
+  unfold class_tag, ns_tag, starts_with, virtual_view_name, validator_name; cbn;
+  first [ reflexivity
+        | match goal with |- context [prefix EmptyString ?y] => destruct y; reflexivity end ].
+
 Lemma class_tag_virtual_view : forall x, class_tag (virtual_view_name x) = 4%N.
-Proof. intros x. reflexivity. Qed.
+Proof. intros x. tag_solve. Qed.
 
 Lemma class_scope_partial : forall s,
   front_end_names_ok (ClassScope s) = true -> names_guard (ClassScope s) = true ->
@@ -273,8 +278,8 @@ Proof.
   destruct (dollar_accessors_facts (st_units s)) as [Dnd [Dup [DVnd [DVtag Dtag6]]]].
   unfold class_scope_names, class_groups.
   apply (concat_NoDup_by_tag class_tag [1; 2; 3; 4; 5; 6]%N).
-  { apply (NoDup_map_inj N.to_nat); [intros a b; apply N2Nat.inj|]. cbn. repeat constructor; cbn; intuition lia. }
-  repeat constructor.
+  { repeat (constructor; [cbn; intros H; decompose [or] H; try discriminate; contradiction|]). constructor. }
+  repeat (apply Forall2_cons; [split|]); try apply Forall2_nil.
   - (* has_ accessors *)
     apply NoDup_map_inj; [intros a b H; unfold has_name in H; eapply append_inv_head; exact H|].
     rewrite app_assoc. apply NoDup_app_intro; [exact Fnd|exact Dnd|].
@@ -340,32 +345,32 @@ Proof.
   assert (NoDup (ns_structs n)) as Snd by (eapply NoDup_app_l; exact Tnd).
   unfold ns_scope_names, ns_groups.
   apply (concat_NoDup_by_tag ns_tag [1; 2; 3; 4; 5; 6; 7; 8]%N).
-  { apply (NoDup_map_inj N.to_nat); [intros a b; apply N2Nat.inj|]. cbn. repeat constructor; cbn; intuition lia. }
-  repeat constructor.
+  { repeat (constructor; [cbn; intros H; decompose [or] H; try discriminate; contradiction|]). constructor. }
+  repeat (apply Forall2_cons; [split|]); try apply Forall2_nil.
   - unfold validator_name.
     replace (map (fun f => ("EmbossReservedValidatorFor" ++ snake_to_camel f)%string) (ns_validated n))
       with (map (fun c => ("EmbossReservedValidatorFor" ++ c)%string) (map snake_to_camel (ns_validated n)))
       by (rewrite map_map; reflexivity).
     apply NoDup_map_inj; [intros a b H; eapply append_inv_head; exact H|exact Gcamel].
-  - intros x Hx. apply in_map_iff in Hx. destruct Hx as [y [<- _]]. reflexivity.
+  - intros x Hx. apply in_map_iff in Hx. destruct Hx as [y [<- _]]. tag_solve.
   - apply NoDup_map_inj; [intros a b H; eapply wrapped_inj; exact H|exact Snd].
-  - intros x Hx. apply in_map_iff in Hx. destruct Hx as [y [<- _]]. reflexivity.
+  - intros x Hx. apply in_map_iff in Hx. destruct Hx as [y [<- _]]. tag_solve.
   - apply NoDup_map_inj; [intros a b H; eapply wrapped_inj; exact H|exact Snd].
-  - intros x Hx. apply in_map_iff in Hx. destruct Hx as [y [<- _]]. reflexivity.
+  - intros x Hx. apply in_map_iff in Hx. destruct Hx as [y [<- _]]. tag_solve.
   - apply NoDup_map_inj; [intros a b H; eapply wrapped_inj; exact H|exact Snd].
   - intros x Hx. apply in_map_iff in Hx. destruct Hx as [y [<- Hy]].
     (* "Make" ++ t ++ "View" must not read as MakeAligned...: part of the guard through tag 8 of t?  no: derive from Gderived *)
-    pose proof (forallb_In _ _ y Gderived Hy) as H. apply andb_true_iff in H. destruct H as [[_ _] H4].
+    pose proof (forallb_In _ _ y Gderived Hy) as H. rewrite !andb_true_iff in H. destruct H as [[_ _] H4].
     apply N.eqb_eq in H4. exact H4.
   - apply NoDup_map_inj; [intros a b H; eapply wrapped_inj; exact H|exact Snd].
-  - intros x Hx. apply in_map_iff in Hx. destruct Hx as [y [<- _]]. reflexivity.
+  - intros x Hx. apply in_map_iff in Hx. destruct Hx as [y [<- _]]. tag_solve.
   - apply NoDup_map_inj; [intros a b H; eapply append_inv_tail; exact H|exact Snd].
   - intros x Hx. apply in_map_iff in Hx. destruct Hx as [y [<- Hy]].
-    pose proof (forallb_In _ _ y Gderived Hy) as H. apply andb_true_iff in H. destruct H as [[H _] _].
+    pose proof (forallb_In _ _ y Gderived Hy) as H. rewrite !andb_true_iff in H. destruct H as [[H _] _].
     apply N.eqb_eq in H. exact H.
   - apply NoDup_map_inj; [intros a b H; eapply append_inv_tail; exact H|exact Snd].
   - intros x Hx. apply in_map_iff in Hx. destruct Hx as [y [<- Hy]].
-    pose proof (forallb_In _ _ y Gderived Hy) as H. apply andb_true_iff in H. destruct H as [[_ H] _].
+    pose proof (forallb_In _ _ y Gderived Hy) as H. rewrite !andb_true_iff in H. destruct H as [[_ H] _].
     apply N.eqb_eq in H. exact H.
   - rewrite app_assoc. apply NoDup_app_intro; [exact Tnd| |].
     + unfold enum_shared. destruct (ns_enums n); [constructor|]. destruct (ns_traits n); [|constructor].
